@@ -1,6 +1,6 @@
 module verifharness
 
-go 1.21
+go 1.23
 
 require (
 	github.com/gobwas/httphead v0.1.0
